@@ -5,6 +5,7 @@ From Coq Require Import List Bool ZArith NArith QArith String Reals Qreals.
 From Molli Require Import Common.ParseStr Model.Parse Model.XyzText Proofs.Parse Proofs.XyzText.
 From Molli Require Import Gen.XyzElements Gen.Units Gen.ScaleExpr.
 Import ListNotations.
+Local Open Scope list_scope.
 
 Definition names := conv_names element_names.
 Definition syms := conv_syms element_symbols.
